@@ -3,6 +3,7 @@
    proofs in Proofs/DepSafe.v. *)
 From Coq Require Import ZArith String List Bool.
 From EL Require Import Model.Exec Model.ExecInv Model.StepExec Model.DepExec Proofs.DepSafe.
+From EL Require Import Model.Traverse Proofs.TraverseProofs.
 Import ListNotations.
 
 (* the function body of a call is not started before ALL its input futures — every future found
@@ -37,3 +38,40 @@ Theorem C03_done_is_monotone :
     dstep c d t = Some (d', l) -> fdone (getf (dbase d) j) = true -> fdone (getf (dbase d') j) = true.
 Proof. exact done_monotone. Qed.
 Print Assumptions C03_done_is_monotone.
+
+(* ---- the argument traversals (Model/Traverse.v, compared with the real
+   _get_future_objects_from_input / _update_futures_in_input in every run) ---- *)
+
+(* the futures a call waits for are exactly the futures replaced by their results, in the same
+   order: positional arguments, then keyword values, lists descended into, to any depth *)
+Theorem C03_waits_for_exactly_what_it_replaces :
+  forall args kwargs, futures_of args kwargs = asked_of args kwargs.
+Proof. exact same_traversal. Qed.
+Print Assumptions C03_waits_for_exactly_what_it_replaces.
+
+(* a future is replaced by its result; a list is rebuilt element by element; anything else,
+   and any argument that contains no future, is passed on unchanged *)
+Theorem C03_future_replaced_by_result : forall res j, subst res (TFut j) = res j.
+Proof. exact subst_fut. Qed.
+Print Assumptions C03_future_replaced_by_result.
+
+Theorem C03_lists_rebuilt_elementwise : forall res l, subst res (TList l) = TList (map (subst res) l).
+Proof. exact subst_list. Qed.
+Print Assumptions C03_lists_rebuilt_elementwise.
+
+Theorem C03_rest_unchanged : forall res a, find1 a = [] -> subst res a = a.
+Proof. exact subst_no_futures. Qed.
+Print Assumptions C03_rest_unchanged.
+
+(* after the update the call sees no future where the traversal looks *)
+Theorem C03_no_future_left :
+  forall res a, (forall j, visible_futs (res j) = []) -> visible_futs (subst res a) = [].
+Proof. exact no_future_left. Qed.
+Print Assumptions C03_no_future_left.
+
+(* non-vacuity: a nested argument list with two futures, one of them twice *)
+Example C03_traversal_example :
+  futures_of [TList [TFut 1; TList [TFut 0; TVal 7]]; TOther [TFut 2]] [(0, TFut 1)] = [1; 0; 1]
+  /\ update_args (fun j => TVal (10 + j)) [TList [TFut 1; TList [TFut 0; TVal 7]]; TOther [TFut 2]]
+     = [TList [TVal 11; TList [TVal 10; TVal 7]]; TOther [TFut 2]].
+Proof. split; reflexivity. Qed.
